@@ -127,6 +127,19 @@ def repeated_any_order(g):
     return doc, insts, "repeated-any-order"
 
 
+def nested_or_with_range(g):
+    """`$or` directly inside `$or`, the inner one repeated: `$or[x, $or[a, b] times {1..3}]` is x, or one to three
+    instructions each of which is a or b - the inner repetition is not lost by the nesting"""
+    x, a, b = g.r.sample(["ret", "nop", "int3", "hlt", "cld", "leave"], 3)
+    t = g.pick([{"min": 1, "max": 3}, {"min": 1, "max": 2}, 2, {"min": 2, "max": 3}])
+    inner = {"$or": [a, b], "times": t}
+    kids = [x, inner] if g.chance(0.5) else [inner, x]
+    doc = {"pattern": ["push", {"$or": kids}, "pop"]}
+    mid = g.pick([[a, b], [b, a], [a, a], [a], [x], [a, b, a], [x, a], [a, b, b, a]])
+    insts = [("9000", "push", ["%rbp"])] + [("%x" % (0x9001 + i), m, []) for i, m in enumerate(mid)] + [("9010", "pop", ["%rbp"])]
+    return doc, insts, "nested-or-with-range"
+
+
 def run(ctx, factor):
     ctx.report.rule = ("random nestings (depth <= 3) of $or/$and/$and_any_order at instruction level, operand "
                        "level and inside $deref fields; listings realise one alternative / one ordering, then one "
@@ -135,7 +148,7 @@ def run(ctx, factor):
     rep = ctx.report
     for it in range(ctx.budget(72, 3000) * factor):
         doc, insts, tag = (sibling_any_order(ctx.g) if it % 6 in (0, 1) else and_in_any_order(ctx.g) if it % 6 == 2 else
-                           repeated_any_order(ctx.g) if it % 6 == 3 else
+                           repeated_any_order(ctx.g) if it % 6 == 3 else nested_or_with_range(ctx.g) if it % 12 == 4 else
                            prefix_alternatives(ctx.g) if it % 3 else nested_any_order(ctx.g))
         o = patdiff.observe(ctx, doc, insts, modes=("bool", "all", "first"))
         usable = patdiff.correspondence(ctx, o)
